@@ -135,6 +135,16 @@ def view(o):
     return o
 
 
+def view_det(o):
+    """run-to-run comparison (C08): the top-file tables keep their order, files with equal code lines compared as sets"""
+    if isinstance(o, dict) and "sorted" in o:
+        from . import core
+        v = view(o)
+        v["sorted"] = {k: core.tie_groups([[f["Location"], f["Code"]] for f in rows], lambda x: x[1]) for k, rows in o["sorted"].items()}
+        return v
+    return view(o)
+
+
 def nontrivial(case, mo):
     return bool(mo.get("rows")) or bool(mo.get("sorted"))
 
